@@ -1,5 +1,5 @@
 """C20 Exited threads' queues are drained, then reclaimed; shrinking loses nothing."""
-from lib import vf, opxlib
+from lib import vf, opxlib, wmmlib
 
 LEVEL = "model_checking"
 SRC = "engines/opx/sc_c20.cpp"
@@ -7,6 +7,7 @@ SRC = "engines/opx/sc_c20.cpp"
 
 def prebuild():
     opxlib.build("sc_c20", SRC)
+    wmmlib.build_sys()
 
 
 def jobs(tier):
@@ -39,12 +40,28 @@ def run(ctx):
                 "against the preemptible backend; (b) exhaustive sweep over the number N of threads that start, log once and "
                 "exit between two backend idle periods (two cycles each); (c) grow-by-burst then shrink(target) for every "
                 "power-of-two target, interleaved with logging and backend steps, backend buffer initial capacities 1 and non-powers of two; after the drain the number of retained "
-                "thread contexts must equal the number of live threads that logged; distinct = distinct observable outcomes")
+                "thread contexts must equal the number of live threads that logged; (d) whole-system exploration at atomic-operation granularity "
+                "(Engine A): real registration, log calls and thread exit against 1-3 real backend polls (clean-up included), all interleavings and "
+                "all C++11-admissible load values, then the backend drains alone: everything delivered once in order, contexts == live threads; "
+                "distinct = distinct observable outcomes")
     ctx.set_deadline(170 if ctx.tier == "quick" else 1800)
     exe = opxlib.build("sc_c20", SRC)
     opxlib.run_jobs(ctx, exe, jobs(ctx.tier), "sc_c20")
+    # below Engine B's granularity: real registration, log calls and thread exit (context invalidation) against real backend polls
+    # incl. the clean-up of invalidated contexts, at every atomic operation and with every load value the C++11 model admits
+    hs = wmmlib.build_sys()
+    q = ctx.tier == "quick"
+    sj = [wmmlib.sys_job(hs, "sys", 0, 2, "l1,x"), wmmlib.sys_job(hs, "sys", 0, 3, "l1,l2,x"), wmmlib.sys_job(hs, "sys", 0, 2, "r,l1,l2,l3,x"),
+          wmmlib.sys_job(hs, "sys", 0, 2, "r,x"), wmmlib.sys_job(hs, "sys", 0, 2, "l1,x,l2,x"), wmmlib.sys_job(hs, "sysbd", 0, 2, "l1,l2,l3,l4,l5,x")]
+    if not q:
+        sj += [wmmlib.sys_job(hs, "sys", 0, 3, "r,l1,l2,l3,x", deadline=1500), wmmlib.sys_job(hs, "sys", 0, 3, "l1,x,l2,x", deadline=1500),
+               wmmlib.sys_job(hs, "sys", 1, 1, "l1,x", "l1,x", deadline=1500), wmmlib.sys_job(hs, "sys", 1, 2, "l1,x", "l1,x", deadline=1500),
+               wmmlib.sys_job(hs, "sys", 1, 1, "l1,x,l2", "x", deadline=1500)]
+    wmmlib.run_sys(ctx, sj)
     ctx.assumptions.append("frontend operations are atomic steps; backend preemptible at QUILL_VERIF_YIELD(1..4) and poll boundaries (sweep: poll boundaries only)")
 
 
 def replay(rep, extra):
+    if wmmlib.is_sys_record(rep["record"]):
+        return wmmlib.replay_sys("C20", rep)
     return opxlib.replay("C20", opxlib.build("sc_c20", SRC), rep)
